@@ -459,6 +459,9 @@ func init() {
 					"judgement": "a concurrent call returned another verdict than the same call run alone: " + strings.Join(o.Differs, "; ")})
 			}
 		}
+		if replay == "" {
+			c15OrderIndependence(meta)
+		}
 		for sig, rep := range raceSignatures(outDir) {
 			meta.Histogram[sig]++
 			meta.GoViolation = append(meta.GoViolation, map[string]any{"signature": sig, "cases": []any{}, "go_observation": map[string]any{"report": rep},
@@ -468,5 +471,69 @@ func init() {
 		meta.Files, meta.Offsets = writeCasesInterned(outDir, "cases", "From KV Require Import Model.Base Exec.C10Exec.", "N", "judge_C10", nil, 1000)
 		writeMeta(outDir, meta)
 		fmt.Fprintf(os.Stderr, "C15: %d cases\n", len(cases))
+	}
+}
+
+// "every call returns the verdict it returns when run alone": the verdict of one validation does not depend on
+// which other schemas of the document were validated before it (in any order a schedule may produce)
+func c15OrderIndependence(meta *Meta) {
+	text := `{"openapi":"3.0.3","info":{"title":"t","version":"1"},"paths":{},"components":{"schemas":{` +
+		`"Node":{"additionalProperties":{"$ref":"#/components/schemas/List"}},` +
+		`"List":{"additionalProperties":{"$ref":"#/components/schemas/Node"},"items":{"type":"string"}},` +
+		`"A":{"properties":{"b":{"$ref":"#/components/schemas/B"}}},"B":{"properties":{"a":{"$ref":"#/components/schemas/A"}},"minProperties":1},` +
+		`"P":{"allOf":[{"$ref":"#/components/schemas/Q"}]},"Q":{"properties":{"p":{"$ref":"#/components/schemas/P"}},"maxProperties":1}}}}`
+	type step struct {
+		schema string
+		value  any
+	}
+	steps := []step{{"List", map[string]any{"k": map[string]any{"k": []any{"s"}}}}, {"Node", map[string]any{"k": []any{1.0}}}, {"Node", map[string]any{"k": []any{"s"}}},
+		{"B", map[string]any{}}, {"A", map[string]any{"b": map[string]any{}}}, {"A", map[string]any{"b": map[string]any{"a": map[string]any{}}}},
+		{"Q", map[string]any{"p": map[string]any{"p": map[string]any{}, "x": 1.0}}}, {"P", map[string]any{"p": map[string]any{}, "x": 1.0}}}
+	verdict := func(doc *openapi3.T, st step) string {
+		var err error
+		if p := catchPanic(func() { err = doc.Components.Schemas[st.schema].Value.VisitJSON(st.value) }); p != nil {
+			return "panic"
+		}
+		if err != nil {
+			return "refused"
+		}
+		return "accepted"
+	}
+	load := func() *openapi3.T {
+		d, err := openapi3.NewLoader().LoadFromData([]byte(text))
+		if err != nil {
+			return nil
+		}
+		return d
+	}
+	// alone: each step on a document of its own
+	alone := make([]string, len(steps))
+	for i, st := range steps {
+		if d := load(); d != nil {
+			alone[i] = verdict(d, st)
+		}
+	}
+	// every rotation of the steps, forwards and backwards, on one shared document
+	for rot := 0; rot < len(steps); rot++ {
+		for _, back := range []bool{false, true} {
+			d := load()
+			if d == nil {
+				return
+			}
+			for k := 0; k < len(steps); k++ {
+				i := (rot + k) % len(steps)
+				if back {
+					i = (rot - k + 2*len(steps)) % len(steps)
+				}
+				meta.Histogram["order-independence validations"]++
+				if got := verdict(d, steps[i]); got != alone[i] {
+					b, _ := json.Marshal(steps[i].value)
+					meta.GoViolation = append(meta.GoViolation, map[string]any{"signature": "verdict-depends-on-earlier-validations", "cases": []any{map[string]any{"schema": steps[i].schema, "value": string(b), "rotation": rot, "backwards": back}},
+						"go_observation": fmt.Sprintf("alone: %s; after %d other validations on the same document: %s", alone[i], k, got),
+						"judgement":      "every call returns the verdict it returns when run alone"})
+					return
+				}
+			}
+		}
 	}
 }
